@@ -65,6 +65,12 @@ func main() {
 	case "dirty":
 		dirtyMain()
 		return
+	case "copies":
+		copiesMain()
+		return
+	case "twoctx":
+		twoctxMain()
+		return
 	}
 	seed := flag.Uint64("seed", 1, "seed")
 	n := flag.Int("n", 100, "number of cases")
